@@ -62,7 +62,7 @@ class ERoute(Engine):
                    'C17 / C15)', 'little-endian host only', 'repr() of a file-backed object names its file by design and '
                    'is compared only for other routes']
     expected_probes = ('file_route_with_slack_bytes', 'file_route_length_shorter_than_file', 'op_on_file_backed_lazy',
-                       'mutator_on_file_derived', 'env_unlink_then_op', 'lsb0_pair', 'cache_hit_route', 'op_after_toggle', 'big_file_pair', 'op_against_fresh_twin')
+                       'mutator_on_file_derived', 'env_unlink_then_op', 'lsb0_pair', 'cache_hit_route', 'op_after_toggle', 'big_file_pair', 'op_against_fresh_twin', 'env_replace_then_reopen')
 
     def plan(self, tier, base_seed):
         descs = self.seeded_plan(tier, base_seed, quick=(24000, 28), thorough=(1500000, 50))
@@ -279,7 +279,7 @@ class ERoute(Engine):
         if r < 0.03 * cfg['toggle_w']:
             return {'k': 'toggle'}
         if r < 0.03 * cfg['toggle_w'] + 0.03 * cfg['env_w']:
-            return {'k': 'env', 'what': g.pick(['unlink', 'append', 'rewrite_tail'])}
+            return {'k': 'env', 'what': g.pick(['unlink', 'append', 'rewrite_tail', 'replace', 'replace'])}
         if r < 0.03 * cfg['toggle_w'] + 0.03 * cfg['env_w'] + 0.02:
             return {'k': 'cache_clear'}
         if cfg.get('big'):
@@ -573,6 +573,34 @@ class ERoute(Engine):
                 elif what == 'rewrite_tail':
                     # bytes strictly after the mapped logical window may change at any time
                     pass
+                elif what == 'replace' and getattr(self, 'remake', None) is not None and not self.cfg.get('big'):
+                    # the file is replaced (new inode, same name, same size, same modification time) while the pair - which maps the
+                    # old one - stays alive: an object made from the name NOW holds the new file's bits
+                    with open(self.path, 'rb') as f:
+                        cur = f.read()
+                    new = bytes(b ^ 0xFF for b in cur)
+                    stt_ = os.stat(self.path)
+                    tmp = self.path + '.new'
+                    with open(tmp, 'wb') as f:
+                        f.write(new)
+                    os.utime(tmp, ns=(stt_.st_atime_ns, stt_.st_mtime_ns))
+                    os.replace(tmp, self.path)
+                    self.fault('file_replaced')
+                    self.probe('env_replace_then_reopen')
+                    st_, y = call(self.remake)
+                    st0, y0 = call(lambda: type(self.X)(bytes=new))
+                    incs_r = []
+                    if st_ == 'ok' and st0 == 'ok':
+                        allb = kernel.safe_bin(y0)
+                        yb = kernel.safe_bin(y)
+                        route_ = self.cfg.get('route')
+                        off_ = int(self.cfg.get('off', 0)) if route_ in ('file_off', 'handle_off', 'file_off_len') else 0
+                        if allb[off_:off_ + len(yb)] != yb:
+                            incs_r.append(self.inc(f'route={route_}|env=replace|object-made-after-the-replacement-holds-other-bits-than-the-file', cls=self.cls, size=len(new),
+                                                   got=yb[:80], file_has=allb[off_:off_ + len(yb)][:80]))
+                    # (the pair itself keeps mapping the old file: nothing is said about it; later eq_fresh objects come from the new one)
+                    self.unlinked = True
+                    return {'env': what}, incs_r + self._compare_state('env', ev)
             return {'env': what}, self._compare_state('env', ev)
         if k != 'op':
             return {'skip': k}, []
